@@ -112,6 +112,9 @@ def run(pid, tier, seed, replay=None):
             rep.case(line, nontrivial=(nb != n) or f["fits"] == "0", sample={"case": meta, "driver": ans} if len(rep.samples) < 4 else None)
             rep.count("mode=" + meta["mode"]); rep.count("kind=" + meta["kind"]); rep.count("fits=" + f["fits"])
             rep.count("pooled" if nb != n else "unpooled")
+            rep.count("chain-model = general-solver-model: " + f.get("vpsc", "na"))
+            if f.get("vpsc") == "fail":
+                st["broken"].append("model inconsistency: the chain model and the transliterated general solver disagree on a layer instance")
             payload = {"case": meta, "driver_line": line, "driver_answer": ans}
             if f["model"] != "ok" or (pid in ("C02", "C03") and f["model3"] != "ok"):
                 st["broken"].append("model-prop-fail: the proved predicate is false of the model's own output (constants changed?)")
